@@ -14,7 +14,7 @@ import itertools
 import re
 
 from .loader import AnalysisError, dotted
-from .interp import Interp, Scenario, Sym, FuncV, render
+from .interp import Interp, Scenario, Sym, Const, FuncV, render
 from .guards import eval_skel, atoms as skel_atoms
 
 # the policy, from the property statements (C16 / C07 / C06): operation -> (required flags, conditions)
@@ -521,9 +521,16 @@ class UsageOracle(object):
 def check_usage_scan(rep, prog, rid):
     ka = prog.cls('pgpy.decorators', 'KeyAction')
     u = ka.methods.get('usage')
-    if u is None or len(u.params) != 3:
+    if u is None or len(u.params) < 3 or len(u.node.args.defaults) < len(u.params) - 3:
         raise AnalysisError('KeyAction.usage vanished')
-    me, kp, up = u.params
+    me, kp, up = u.params[:3]
+    extra = {}                        # further parameters take their declared defaults (the wrapper's call is checked by C16.2)
+    for name, d in zip(u.params[len(u.params) - len(u.node.args.defaults):], u.node.args.defaults):
+        if name in u.params[3:]:
+            try:
+                extra[name] = Const(ast.literal_eval(d))
+            except Exception:
+                raise AnalysisError('KeyAction.usage: default of %s is not a literal' % name)
     comps = (kp,) + COMPONENTS
     subs = [Sym(c, nonnull=True) for c in COMPONENTS]
     unroll = {'%s.subkeys.values()' % kp: subs, '%s._children.values()' % kp: subs}
@@ -535,7 +542,7 @@ def check_usage_scan(rep, prog, rid):
             for capv in itertools.product((False, True), repeat=3) if flags else ((False, False, False),):
                 caps = dict(zip(comps, capv))
                 orc = UsageOracle(me, kp, up, flags, require, caps)
-                sc = Scenario(args={kp: Sym(kp, nonnull=True)}, unroll=unroll, oracle=orc, inline=lambda f: f.cls is ka and f is not u)
+                sc = Scenario(args=dict(extra, **{kp: Sym(kp, nonnull=True)}), unroll=unroll, oracle=orc, inline=lambda f: f.cls is ka and f is not u)
                 outs = Interp(prog, sc).run(u)
                 wrong += [t for t in orc.wrong if t not in wrong]
                 unknown += [t for t in orc.unknown if t not in unknown]
